@@ -1,23 +1,43 @@
+pub mod common;
+
 pub mod c02;
+pub mod c05;
+pub mod c06;
+pub mod c07;
+pub mod c09;
+pub mod c10;
+pub mod c11;
+pub mod c12;
+pub mod c13;
+pub mod c14;
 
 use crate::runner::{replay_prop, run_prop, Tier};
 
-pub fn run(id: &str, tier: Tier, seed: u64) -> i32 {
-    match id {
-        "C02" => run_prop(&c02::C02, tier, seed),
-        _ => {
-            eprintln!("MACHINERY: unknown property {}", id);
-            2
+macro_rules! dispatch {
+    ($id:expr, $f:ident, $($arg:expr),*) => {
+        match $id {
+            "C02" => $f(&c02::C02, $($arg),*),
+            "C05" => $f(&c05::C05, $($arg),*),
+            "C06" => $f(&c06::C06, $($arg),*),
+            "C10" => $f(&c10::C10, $($arg),*),
+            "C07" => $f(&c07::C07, $($arg),*),
+            "C11" => $f(&c11::C11, $($arg),*),
+            "C12" => $f(&c12::C12, $($arg),*),
+            "C13" => $f(&c13::C13, $($arg),*),
+            "C14" => $f(&c14::C14, $($arg),*),
+            "C09" => $f(&c09::C09, $($arg),*),
+            _ => {
+                eprintln!("MACHINERY: unknown property {}", $id);
+                2
+            }
         }
-    }
+    };
+}
+
+pub fn run(id: &str, tier: Tier, seed: u64) -> i32 {
+    dispatch!(id, run_prop, tier, seed)
 }
 
 pub fn replay(id: &str, path: &str) -> i32 {
-    match id {
-        "C02" => replay_prop(&c02::C02, path),
-        _ => {
-            eprintln!("MACHINERY: unknown property {}", id);
-            2
-        }
-    }
+    dispatch!(id, replay_prop, path)
 }
